@@ -313,6 +313,30 @@ class VC:
             CTX.add(c.z, "lemma")
         return c
 
+    def prove_from(self, name, cond, using, opaque, kind="post", lemma=False):
+        """generalisation cut: prove `cond` from the hypotheses `using` alone -- each of them must already be part of the path
+        condition (an assumption or a lemma proved earlier on this path) -- after replacing the terms `opaque` by fresh real
+        variables.  Validity of the generalised implication implies validity of the instance, so this is sound; it keeps big
+        sub-terms (If-nests, products) out of the non-linear query.  Falls back to the ordinary tactic chain if it fails."""
+        c = self._b(cond)
+        if not self.symbolic:
+            self.native_results.append((name, bool(c), None))
+            return c
+        hyps = [self._b(h).z for h in using]
+        subs = []
+        for i, t in enumerate(opaque):
+            tz = SymReal.lift(t).z
+            if not z3.is_rational_value(tz) and tz.num_args() > 0:
+                subs.append((tz, z3.Real(f"gen!{i}")))
+        self._hint = (hyps, subs)
+        try:
+            self._record_one(name, "lemma" if lemma else kind, c.z, None)
+        finally:
+            self._hint = None
+        if lemma:
+            CTX.add(c.z, "lemma")
+        return c
+
     def gibbs(self, a, b):
         """assumed axiom instance about the uninterpreted log (A4; consequence of log(xy)=log x+log y and
         t-1 >= log t with equality iff t=1, at t=a/b):  a,b>0 => b(log a - log b) <= a - b, equality iff a == b"""
@@ -422,6 +446,22 @@ class VC:
             return "discharged", "trivial", None, None
         if _cheaply_valid(goal):
             return "discharged", "polyid", None, None
+        hint = getattr(self, "_hint", None)
+        if hint is not None:
+            hyps, subs = hint
+            ids = {t.get_id() for t in pc}
+            if all(h.get_id() in ids for h in hyps):
+                f = z3.Implies(z3.And(*hyps) if hyps else z3.BoolVal(True), goal)
+                if subs:
+                    f = z3.substitute(f, *subs)
+                sg = z3.Solver()
+                sg.set("timeout", int(1000 * min(self.timeout_s, 20)))
+                sg.add(z3.Not(f))
+                try:
+                    if sg.check() == z3.unsat:
+                        return "discharged", "generalised-z3", None, None
+                except z3.Z3Exception:
+                    pass
         g = z3.simplify(goal)
         if z3.is_true(g):
             return "discharged", "z3-simplify", None, None
